@@ -118,6 +118,8 @@ impl<T: Debug + PartialEq, F: RealNumber, D: Distance<T, F>> CoverTree<T, F, D> 
 
         let e = self.get_data_value(self.root.idx);
         let mut d = self.distance.distance(e, p);
+        // computed distances obey the triangle inequality only up to rounding: prune with head-room
+        let slack = F::one() + F::epsilon().sqrt();
 
         let mut current_cover_set: Vec<(F, &Node<F>)> = Vec::new();
         let mut zero_set: Vec<(F, &Node<F>)> = Vec::new();
@@ -150,7 +152,7 @@ impl<T: Debug + PartialEq, F: RealNumber, D: Distance<T, F>> CoverTree<T, F, D> 
                     } else {
                         *heap.peek()
                     };
-                    if d <= (upper_bound + child.max_dist) {
+                    if d <= (upper_bound + child.max_dist) * slack {
                         if c > 0
                             && d < upper_bound
                             && (!self.identical_excluded || self.get_data_value(child.idx) != p)
@@ -198,6 +200,8 @@ impl<T: Debug + PartialEq, F: RealNumber, D: Distance<T, F>> CoverTree<T, F, D> 
         }
 
         let mut neighbors: Vec<(usize, F, &T)> = Vec::new();
+        // computed distances obey the triangle inequality only up to rounding: prune with head-room
+        let slack = F::one() + F::epsilon().sqrt();
 
         let mut current_cover_set: Vec<(F, &Node<F>)> = Vec::new();
         let mut zero_set: Vec<(F, &Node<F>)> = Vec::new();
@@ -218,7 +222,7 @@ impl<T: Debug + PartialEq, F: RealNumber, D: Distance<T, F>> CoverTree<T, F, D> 
                         d = self.distance.distance(self.get_data_value(child.idx), p);
                     }
 
-                    if d <= radius + child.max_dist {
+                    if d <= (radius + child.max_dist) * slack {
                         if !child.children.is_empty() {
                             next_cover_set.push((d, child));
                         } else if d <= radius {
@@ -253,6 +257,12 @@ impl<T: Debug + PartialEq, F: RealNumber, D: Distance<T, F>> CoverTree<T, F, D> 
     fn build_cover_tree(&mut self) {
         let mut point_set: Vec<DistanceSet<F>> = Vec::new();
         let mut consumed_set: Vec<DistanceSet<F>> = Vec::new();
+
+        if self.data.len() == 1 {
+            // a single point: the root gets its own leaf (as for duplicates), queries only report leaves
+            self.root.children = vec![self.new_leaf(0)];
+            return;
+        }
 
         let point = &self.data[0];
         let idx = 0;
@@ -291,7 +301,7 @@ impl<T: Debug + PartialEq, F: RealNumber, D: Distance<T, F>> CoverTree<T, F, D> 
             self.new_leaf(p)
         } else {
             let max_dist = self.max(point_set);
-            let next_scale = (max_scale - 1).min(self.get_scale(max_dist));
+            let next_scale = max_scale.saturating_sub(1).min(self.get_scale(max_dist));
             if next_scale == std::i64::MIN {
                 let mut children: Vec<Node<F>> = Vec::new();
                 let mut leaf = self.new_leaf(p);
